@@ -83,6 +83,7 @@ def run(db, rep, tier):
     pkthdr(db, rep)
     carry_timestamp(db, rep)
     sniff_loop_shape(db, rep)
+    iterator_protocol(db, rep)
     rep.explanation = ("Decides the 'never lets an exception escape from the per-packet loop' clause for the pcap callbacks and "
                        "the structural part of 'skips malformed frames, ends cleanly': escape sets of all %d installed handlers, "
                        "the processed-flag protocol, the handlers' own reads of the frame (R3) and the shape of next_packet's loop. Round-trip of bytes/timestamps and BPF "
@@ -544,3 +545,74 @@ def sniff_loop_shape(db, rep):
                           "throws malformed_packet / pdu_not_found silently ends the whole capture")
             return
     rep.ok("R7-sniff-loop", key, facts.loc(f, tries[0]), "exceptions of one callback invocation are swallowed inside the loop")
+
+
+def iterator_protocol(db, rep):
+    """SnifferIterator: construction from a sniffer and both increments fetch a packet; running out of packets turns the
+    iterator into the end iterator; equality is identity of the sniffer pointer; != is its negation"""
+    rep.rule("R8-iterator", "range iteration: SnifferIterator fetches a packet on construction and on every increment, becomes the end "
+                            "iterator when next_packet() yields none, and compares by its sniffer pointer", 6)
+    REC = "Tins::SnifferIterator"
+    ms = dict()
+    for f in db.functions.values():
+        if f.get("rec") == REC and f.get("body"):
+            ms.setdefault(f["qual"].split("::")[-1] + ("/%d" % len(f["params"])), f)
+    if not ms:
+        rep.analysis_broken("SnifferIterator has no analysable members")
+        return
+
+    def calls(f, name):
+        return [x for x in facts.fn_nodes(f) if x["k"] == "CXXMemberCallExpr" and x.get("cname") == name]
+
+    def verdict(key, f, ok, good, bad):
+        (rep.ok if ok else rep.violation)("R8-iterator", "SnifferIterator::" + key, facts.loc(f), good if ok else bad)
+    adv = ms.get("advance/0")
+    if adv is None:
+        rep.analysis_broken("SnifferIterator::advance vanished")
+        return
+    g = cfg.FnCFG(adv)
+    fetch = [x for x in facts.fn_nodes(adv) if x["k"] in ("CXXOperatorCallExpr", "BinaryOperator") and
+             any(y["k"] == "CXXMemberCallExpr" and y.get("cname") == "next_packet" for y in facts.walk(x)) and "pkt_" in facts.expr_str(x["c"][-2])]
+    clear = [x for x in facts.fn_nodes(adv) if x["k"] == "BinaryOperator" and x.get("op") == "=" and
+             strip(x["c"][0]).get("member") == "sniffer_" and facts.cval(x["c"][1]) == 0]
+    okc = False
+    if fetch and clear:
+        for op, l, r in cond.guards_facts(g, g.pos(clear[0])):
+            if op == "false" and "pkt_" in facts.expr_str(l):
+                okc = True
+    verdict("advance", adv, bool(fetch) and okc and g.reaches_exit_avoiding((g.entry, -1), [g.pos(fetch[0])], normal_only=True) is None,
+            "pkt_ = next_packet() on every path; sniffer_ cleared exactly when no packet came",
+            "advance() does not (always) fetch the next packet, or does not turn into the end iterator when there is none: range "
+            "iteration repeats a packet or never terminates")
+    for nm, what in (("operator++/0", "pre-increment"), ("operator++/1", "post-increment")):
+        f = ms.get(nm)
+        if f is None:
+            continue
+        gg = cfg.FnCFG(f)
+        c = calls(f, "advance")
+        verdict(nm, f, bool(c) and gg.reaches_exit_avoiding((gg.entry, -1), [gg.pos(c[0])], normal_only=True) is None,
+                "%s advances" % what, "%s does not call advance(): the loop never moves to the next packet" % what)
+    for nm, f in ms.items():
+        if f.get("kind") == "ctor" and len(f["params"]) == 1 and (facts.tyi(f, f["params"][0].get("t")) or {}).get("k") == "ptr":
+            gg = cfg.FnCFG(f)
+            c = calls(f, "advance")
+            okk = False
+            if c:
+                gf = cond.guards_facts(gg, gg.pos(c[0]))
+                okk = all(op == "true" and "sniffer_" in facts.expr_str(l) for op, l, r in gf) and len(gf) >= 1
+            verdict("ctor", f, okk, "fetches the first packet when given a sniffer",
+                    "begin() does not fetch the first packet (or tries to without a sniffer)")
+    eq = ms.get("operator==/1")
+    if eq is not None:
+        rets = [x for x in facts.fn_nodes(eq) if x["k"] == "ReturnStmt" and x.get("c")]
+        e = strip(rets[0]["c"][0]) if len(rets) == 1 else None
+        okk = e is not None and e["k"] == "BinaryOperator" and e.get("op") == "==" and \
+            all("sniffer_" in facts.expr_str(x) for x in e["c"])
+        verdict("operator==", eq, okk, "compares the sniffer pointers", "operator== is not `sniffer_ == rhs.sniffer_`: the loop's end test is wrong")
+    ne = ms.get("operator!=/1")
+    if ne is not None:
+        rets = [x for x in facts.fn_nodes(ne) if x["k"] == "ReturnStmt" and x.get("c")]
+        e = strip(rets[0]["c"][0]) if len(rets) == 1 else None
+        okk = e is not None and ((e["k"] == "UnaryOperator" and e.get("op") == "!" and "==" in facts.expr_str(e)) or
+                                 (e["k"] == "BinaryOperator" and e.get("op") == "!=" and all("sniffer_" in facts.expr_str(x) for x in e["c"])))
+        verdict("operator!=", ne, okk, "the negation of operator==", "operator!= is not the negation of operator==")
